@@ -371,11 +371,11 @@ def run_fp(tier, seed, group):
     quick = tier == "quick"
     if group == "a":
         return _run_fp_one(tier, seed, group, 53, 560000 if quick else 2400000)
-    cands = dict(b=[11, 9], c=[9, 11, 10, 8])[group] if quick else dict(b=[12, 11], c=[12, 11, 9, 10])[group]
+    cands = dict(b=[11, 9], c=[11, 10])[group] if quick else dict(b=[12, 11], c=[12, 11, 9, 10])[group]
     tried = []
     r = None
     for sb in cands:
-        r = _run_fp_one(tier, seed, group, sb, 600000 if quick else 1200000)  # z3 timeouts are WALL time: generous because the machine is shared
+        r = _run_fp_one(tier, seed, group, sb, 240000 if quick else 1200000)  # z3 timeouts are WALL time: generous because the machine is shared
         tried.append("FPSort(8,%d): %s" % (sb, r.get("status")))
         if r.get("status") in ("PROVED", "VIOLATION", "ERROR"):
             break
